@@ -6,6 +6,7 @@
 package main
 
 import (
+	"debug/elf"
 	"encoding/binary"
 	"encoding/json"
 	"fmt"
@@ -524,7 +525,7 @@ func check(prop, tier string) int {
 			infra = true
 		} else {
 			os.Setenv("IONSIM_C18_MODE", "free")
-			spawnEnv = []string{"IONSIM_C18_MODE=free", "GORACE=halt_on_error=0 history_size=4 atexit_sleep_ms=0"}
+			spawnEnv = []string{"IONSIM_C18_MODE=free", "GORACE=halt_on_error=0 history_size=7 atexit_sleep_ms=0 exitcode=0"}
 			bdir := filepath.Join(dir, "free")
 			os.MkdirAll(bdir, 0755)
 			tB := time.Now()
@@ -929,6 +930,39 @@ type raceReport struct {
 
 var ionFrameRE = regexp.MustCompile(`github\.com/amzn/ion-go/ion\.([^\s(]+(?:\([^)]*\))?[^\s(]*)\(`)
 
+var raceAddrRE = regexp.MustCompile(`at 0x([0-9a-f]+) by`)
+
+var raceSyms []elf.Symbol
+
+// globalSymbol returns the name of the data symbol of the race binary that covers addr ("" if none).
+func globalSymbol(addr uint64) string {
+	if raceSyms == nil {
+		self, err := os.Executable()
+		if err != nil {
+			return ""
+		}
+		bin := self
+		if !strings.HasSuffix(bin, "-race") {
+			bin = filepath.Join(filepath.Dir(self), "ionsim-race")
+		}
+		f, err := elf.Open(bin)
+		if err != nil {
+			return ""
+		}
+		defer f.Close()
+		raceSyms, _ = f.Symbols()
+		if raceSyms == nil {
+			raceSyms = []elf.Symbol{}
+		}
+	}
+	for _, sy := range raceSyms {
+		if sy.Size > 0 && addr >= sy.Value && addr < sy.Value+sy.Size && elf.ST_TYPE(sy.Info) == elf.STT_OBJECT {
+			return sy.Name
+		}
+	}
+	return ""
+}
+
 // parseRaces extracts the data race reports from a worker log. A report's signature is the first ion-go frame
 // of each of the two conflicting accesses.
 func parseRaces(log string) []raceReport {
@@ -979,13 +1013,26 @@ func parseRaces(log string) []raceReport {
 			}
 			frames = append(frames, f)
 		}
-		sort.Strings(frames)
 		rr := raceReport{Index: index, Text: strings.Join(block, "\n")}
 		for _, f := range frames {
 			if f != "?" {
 				rr.Ion = true
 			}
 		}
+		if !rr.Ion {
+			// The detector could not restore the stacks (deep recursion outruns its history). A race on a package-level
+			// variable can still be attributed: the address is looked up in the symbol table of the race binary.
+			if m := raceAddrRE.FindStringSubmatch(block[1]); m != nil {
+				if addr, err := strconv.ParseUint(m[1], 16, 64); err == nil {
+					if sym := globalSymbol(addr); strings.HasPrefix(sym, "github.com/amzn/ion-go/ion.") {
+						rr.Ion = true
+						frames = []string{"global:ion." + strings.TrimPrefix(sym, "github.com/amzn/ion-go/ion.")}
+						rr.Text += "\n(stacks not restored; address attributed through the symbol table to " + sym + ")"
+					}
+				}
+			}
+		}
+		sort.Strings(frames)
 		rr.Sig = "C18.R/" + strings.Join(frames, "|")
 		out = append(out, rr)
 		i = j
@@ -1037,7 +1084,7 @@ func replayFree(rf replayFile, path string) int {
 		if attempt%3 == 2 {
 			gmp = "GOMAXPROCS=2"
 		}
-		cmd.Env = append(os.Environ(), gmp, "IONSIM_C18_MODE=free", "GORACE=halt_on_error=0 history_size=4 atexit_sleep_ms=0")
+		cmd.Env = append(os.Environ(), gmp, "IONSIM_C18_MODE=free", "GORACE=halt_on_error=0 history_size=7 atexit_sleep_ms=0 exitcode=0")
 		var outb, errb strings.Builder
 		cmd.Stdout = &outb
 		cmd.Stderr = &errb
